@@ -767,3 +767,102 @@ Proof.
       apply (pres_app is_dq is_dq zbb (c_name c)); [apply pres_tame_dq; exact Hn|lit_pres].
   - intros E; apply Some_inj in E; subst blk. apply zjoin_run_last; [exact Hsegs|apply run_to_zx, pres_ret].
 Qed.
+
+(** ---- the subcommand section ---- *)
+Ltac pchunk Q tac := apply (pres_app _ Q _); [tac|].
+
+Lemma subcommands_words p names w b :
+  subcommands p = Some names -> In (w, b) names -> exists sc, In sc (c_subs p) /\ In w (get_name_and_visible_aliases sc).
+Proof.
+  unfold subcommands. destruct (map_opt sc_entries (c_subs p)) as [l|] eqn:E; [|discriminate].
+  intros H Hin. apply Some_inj in H. subst names. apply map_opt_Forall2 in E.
+  apply (Forall2_concat_in _ _ _ E) in Hin. destruct Hin as (sc & e & Hsc & He & Hx).
+  destruct (sc_entries_spec _ _ He) as (b0 & _ & Hspec). apply Hspec in Hx. exists sc. tauto.
+Qed.
+
+Lemma Forall2_in_r {A B} (R : A -> B -> Prop) l r b : Forall2 R l r -> In b r -> exists a, In a l /\ R a b.
+Proof.
+  induction 1 as [|x y l r Hxy Hrest IH]; intros Hin; [destruct Hin|].
+  destruct Hin as [->|Hin]; [exists x; split; [left; reflexivity|exact Hxy]|].
+  destruct (IH Hin) as (a & Ha & Hr). exists a. split; [right; exact Ha|exact Hr].
+Qed.
+
+Lemma parser_of_d_tame p d b m md : ztame_cmd p = true -> parser_of_d p d b = Some (m, md) -> ztame_cmd m = true.
+Proof.
+  intros Ht H. apply parser_of_d_inv in H. destruct (parser_of_sound _ _ _ H) as [[->|Hd] _]; [exact Ht|].
+  eapply ztame_desc; eassumption.
+Qed.
+
+Lemma run_zcase_block name hy pos body :
+  tame name = true -> tame hy = true -> tame pos = true -> run_to zbare zbare body ->
+  run_to zbare zbare (zcase_block name hy pos body).
+Proof.
+  intros Hn Hh Hp Hb. unfold zcase_block.
+  apply (run_to_app zbare zbare zbare); [|apply (run_to_app zbare zbare zbare); [exact Hb|apply run_to_zx; lit_pres]].
+  apply run_to_zx.
+  pchunk zbare lit_pres. pchunk zbare lit_pres. pchunk zbare lit_pres. pchunk zbare lit_pres.
+  pchunk zbare ltac:(apply pres_tame_bare; exact Hn).
+  pchunk zbare lit_pres. pchunk zbare lit_pres. pchunk zbare lit_pres.
+  pchunk zbare ltac:(apply pres_tame_bare; exact Hp).
+  pchunk zbare lit_pres. pchunk zbare lit_pres. pchunk zbare lit_pres. pchunk zbare lit_pres.
+  pchunk is_dq lit_pres.
+  pchunk is_dq ltac:(apply pres_tame_dq; exact Hh).
+  pchunk is_dq lit_pres.
+  pchunk is_dq ltac:(apply pres_tame_dq; exact Hp).
+  pchunk zbare lit_pres. pchunk zbare lit_pres. pchunk zbare lit_pres.
+  pchunk zbare ltac:(apply pres_tame_bare; exact Hp).
+  pchunk zbare lit_pres. pchunk zbare lit_pres. lit_pres.
+Qed.
+
+Lemma run_label w : tame w = true -> run_to zbare zbare [Zx (lit "(" ++ w ++ lit ")")].
+Proof.
+  intros Hw. apply run_to_zx. pchunk zbare lit_pres. pchunk zbare ltac:(apply pres_tame_bare; exact Hw). lit_pres.
+Qed.
+
+Lemma run_get_subcommands_of : forall f p d r,
+  ztame_cmd p = true -> get_subcommands_of f p d = Some r -> run_to zbare zbare r.
+Proof.
+  induction f as [|f IH]; intros p d r Ht; cbn [get_subcommands_of]; destruct (negb (has_subcommands p));
+    try (intros E; apply Some_inj in E; subst r; apply run_to_nil); [discriminate|].
+  destruct (subcommands p) as [names|] eqn:En; [|discriminate].
+  match goal with |- match map_opt ?F names with _ => _ end = _ -> _ => destruct (map_opt F names) as [arms|] eqn:Er; [|discriminate] end.
+  destruct (c_bin p) as [pb|] eqn:Eb; [|discriminate]. intros E; apply Some_inj in E; subst r.
+  destruct (ztame_cmd_parts p Ht) as (Hn & _).
+  apply run_zcase_block; [exact Hn|apply tame_replace_byte; [reflexivity|exact (ztame_bin p pb Ht Eb)]|apply tame_dec|].
+  apply zjoin_run_bare. intros y Hy. apply map_opt_Forall2 in Er.
+  destruct (Forall2_in_r _ _ _ _ Er Hy) as ([w b] & Hnb & Hf). cbn [fst snd] in Hf.
+  destruct (subcommands_words p names w b En Hnb) as (sc & Hsc & Hw).
+  pose proof (ztame_names sc w (ztame_sub _ _ Ht Hsc) Hw) as Htw.
+  destruct (parser_of_d p d b) as [[m md]|] eqn:Em; [|discriminate].
+  pose proof (parser_of_d_tame _ _ _ _ _ Ht Em) as Htm.
+  destruct (get_args_of m md (Some p)) as [sa|] eqn:Ea; [|discriminate].
+  destruct (get_subcommands_of f m md) as [ch|] eqn:Ec; [|discriminate].
+  apply Some_inj in Hf. subst y. apply zjoin_run_bare. intros x Hx.
+  apply in_app_or in Hx. destruct Hx as [[<-|[]]|Hx]; [apply run_label; exact Htw|].
+  apply in_app_or in Hx. destruct Hx as [Hx|Hx].
+  { destruct (negb (is_nil sa)); [|destruct Hx]. destruct Hx as [<-|[]]. eapply run_get_args_of; eassumption. }
+  apply in_app_or in Hx. destruct Hx as [Hx|Hx].
+  { destruct (negb (is_nil ch)); [|destruct Hx]. destruct Hx as [<-|[]]. eapply IH; eassumption. }
+  destruct Hx as [<-|[]]. apply run_to_zx. lit_pres.
+Qed.
+
+(** ---- the [_..._commands] functions ---- *)
+Lemma run_describe_entry about w : tame w = true -> run_to zbare zbb (describe_entry about w).
+Proof.
+  intros Hw. unfold describe_entry. apply (run_to_cons_zx zbare is_sq).
+  { pchunk is_sq lit_pres. pchunk is_sq ltac:(apply pres_tame_sq; exact Hw). lit_pres. }
+  apply run_to_cons_zh. apply run_to_zx. lit_pres.
+Qed.
+
+Lemma run_subcommands_of p d : ztame_cmd p = true -> run_to zbare zbare (subcommands_of p d).
+Proof.
+  intros Ht. unfold subcommands_of. set (segs := flat_map _ _).
+  assert (Hs : forall x, In x segs -> run_to zbare zbb x).
+  { intros x Hx. apply in_flat_map in Hx. destruct Hx as ([sc sd] & Hin & Hx). cbn [fst snd] in Hx.
+    apply in_map_iff in Hx. destruct Hx as (w & <- & Hw). apply run_describe_entry.
+    apply zipd_in_l in Hin. exact (ztame_names sc w (ztame_sub _ _ Ht Hin) Hw). }
+  clearbody segs. destruct segs as [|s0 segs']; [apply run_to_nil|]. cbn [is_nil negb].
+  rewrite app_assoc. apply zjoin_run_last; [|apply run_to_zx; lit_pres].
+  intros x Hx. apply in_app_or in Hx. destruct Hx as [[<-|[]]|Hx]; [|apply Hs; exact Hx].
+  apply (run_to_weaken zbare zbare zbare zbb); [intros st H; exact H|apply zbare_zbb|apply run_to_nil].
+Qed.
